@@ -18,7 +18,9 @@ ASSUMPTIONS = [
 def shards(tier, seed):
     from vmon.spec import cdb as S
 
-    return [{"id": n, "cmd": n, "n": 120 if tier == "quick" else 5000} for n in S.COMMANDS]
+    out = [{"id": n, "cmd": n, "n": 120 if tier == "quick" else 5000} for n in S.COMMANDS]
+    out += [{"id": n + ".base-first", "cmd": n, "n": 30 if tier == "quick" else 500, "base_first": True} for n in S.COMMANDS]
+    return out
 
 
 def lib_fields(cls):
@@ -70,6 +72,15 @@ def run(shard, ctx):
     from vmon.spec import cdb as S, dataout as DO
 
     c = S.COMMANDS[shard["cmd"]]
+    if shard.get("base_first"):
+        # the generic base class is used before this command class ever is (a CDB sniffer that only wants the opcode)
+        for probe in (bytes(6), bytes([0x28]) + bytes(9), bytes([0x88]) + bytes(15)):
+            try:
+                SCSICommand.unmarshall_cdb(probe)
+                SCSICommand.marshall_cdb({"opcode": probe[0]})
+            except Exception:  # noqa: BLE001
+                pass
+        ctx.count("base_class_used_first")
     cls = c.load()
     rng = ctx.rng()
     setname = c.sets[0]
@@ -140,6 +151,34 @@ def run(shard, ctx):
                     ctx.fail("C02:%s.rebuild_on_instance" % c.name, "cmd.build_cdb(same fields) = %s / %s, first build %s" % (again.hex(), again2.hex(), orig_cdb.hex()), wit)
             except Exception as e:  # noqa: BLE001
                 ctx.fail("C02:%s.roundtrip_raises" % c.name, "second build_cdb raised", wit, exc=e)
+            # a CDB handed out earlier keeps decoding to the values it was built from, whatever is built on the object later
+            k1 = next((k for k in fields if k != "opcode" and k in widths and isinstance(fields[k], int)), None)
+            if k1 is not None:
+                try:
+                    earlier = cmd.cdb
+                    f2 = dict(fields)
+                    f2[k1] = fields[k1] ^ 1
+                    cmd.cdb = orig(cmd, **f2)
+                    ctx.count("earlier_cdb_rechecks")
+                    if bytes(earlier) != orig_cdb or any(cls.unmarshall_cdb(earlier).get(k) != v for k, v in dec.items()):
+                        ctx.fail("C02:%s.earlier_cdb_changed_by_rebuild" % c.name, "the CDB read from the command before it was rebuilt with %s changed now decodes differently: %s, was %s"
+                                 % (k1, bytes(earlier).hex(), orig_cdb.hex()), wit)
+                    if cls.unmarshall_cdb(cmd.cdb).get(k1) != f2[k1] and not (f2[k1] >> widths[k1]):
+                        ctx.fail("C02:%s.rebuild_lost.%s" % (c.name, k1), "rebuilt with %s=%#x, decodes to %r" % (k1, f2[k1], cls.unmarshall_cdb(cmd.cdb).get(k1)), wit)
+                except Exception as e:  # noqa: BLE001
+                    ctx.fail("C02:%s.roundtrip_raises" % c.name, "rebuild with another value raised %s" % type(e).__name__, wit, exc=e)
+            # decoded values do not follow the buffer they were decoded from: the caller reuses its receive buffer
+            try:
+                rx = bytearray(orig_cdb)
+                d_rx = cls.unmarshall_cdb(rx)
+                for i in range(1, len(rx)):
+                    rx[i] = 0
+                ctx.count("receive_buffer_reused")
+                if bytes(cls.marshall_cdb(d_rx)) != orig_cdb:
+                    ctx.fail("C02:%s.decoded_values_follow_source_buffer" % c.name, "marshall(decoded) changed after the buffer it was decoded from was overwritten: %s, was %s"
+                             % (bytes(cls.marshall_cdb(d_rx)).hex(), orig_cdb.hex()), wit)
+            except Exception as e:  # noqa: BLE001
+                ctx.fail("C02:%s.roundtrip_raises" % c.name, "marshall after buffer reuse raised %s" % type(e).__name__, wit, exc=e)
             # the same dict object edited in place and marshalled again reflects the edit
             if dec:
                 k0 = next((k for k in dec if k != "opcode" and k in widths), None)
@@ -148,7 +187,7 @@ def run(shard, ctx):
                     b_a = bytes(cls.marshall_cdb(d_same))
                     d_same[k0] = d_same[k0] ^ 1
                     b_b = bytes(cls.marshall_cdb(d_same))
-                    if cls.unmarshall_cdb(b_b).get(k0) != d_same[k0] or b_a != bytes(cmd.cdb):
+                    if cls.unmarshall_cdb(b_b).get(k0) != d_same[k0] or b_a != orig_cdb:
                         ctx.fail("C02:%s.edit_in_place_lost" % c.name, "marshalling the same dict object after changing %s in place ignored the change" % k0, wit)
 
         # (2) direct joint assignments, full widths
@@ -212,7 +251,13 @@ def run(shard, ctx):
             b[0] = c.op
             ctx.case((c.name, "bytes", bytes(b)), sum(1 for x in b[1:] if x) >= 2)
             try:
-                back = cls.marshall_cdb(cls.unmarshall_cdb(b))
+                keep = bytes(b)
+                d_b = cls.unmarshall_cdb(b)
+                if _ % 2:
+                    for i in range(1, len(b)):
+                        b[i] ^= mask[i]  # the caller's buffer moves on
+                back = cls.marshall_cdb(d_b)
+                b = bytearray(keep)
             except Exception as e:  # noqa: BLE001
                 ctx.fail("C02:%s.roundtrip_raises" % c.name, "bytes round trip raised", {"cmd": c.name, "bytes": b}, exc=e)
                 continue
@@ -255,4 +300,4 @@ def finalize(merged, tier):
 
 
 def replay(rec, ctx):
-    run({"id": rec["witness"]["cmd"], "cmd": rec["witness"]["cmd"], "n": 120}, ctx)
+    run({"id": rec["witness"]["cmd"], "cmd": rec["witness"]["cmd"], "n": 120, "base_first": str(rec.get("shard", "")).endswith(".base-first")}, ctx)
